@@ -1333,12 +1333,30 @@ struct Explorer {
     set<string> discovered;
     map<string, vector<string>> adj;
     set<string> closure;
+    // Who produces a node, as far as ninja can know: declared outputs always; outputs supplied by
+    // a dyndep file only once the statement bound to that file has been reached and the file is
+    // available (exists before, or is produced in this invocation).
+    map<string, int> known_producer;
+    for (size_t si = 0; si < v->stmts.size(); ++si)
+      for (auto& o : v->stmts[si].outs) known_producer[o] = (int)si;
+    set<int> reached;
     vector<string> todo(roots.begin(), roots.end());
+    auto reach_stmt = [&](int si) {
+      if (!reached.insert(si).second) return;
+      const Stmt& s = v->stmts[si];
+      if (!s.phony && !s.dyndep.empty() && (before.Get(s.dyndep) || after.Get(s.dyndep)))
+        for (auto& o : s.spec.outs)
+          if (!known_producer.count(o)) {
+            known_producer[o] = si;
+            if (closure.count(o)) { closure.erase(o); todo.push_back(o); }  // re-expand with its producer known
+          }
+    };
     while (!todo.empty()) {
       string n = todo.back(); todo.pop_back();
       if (!closure.insert(n).second) continue;
-      auto p = v->producer.find(n);
-      if (p == v->producer.end()) continue;
+      auto p = known_producer.find(n);
+      if (p == known_producer.end()) continue;
+      reach_stmt(p->second);
       const Stmt& s = v->stmts[p->second];
       vector<string> in = EffectiveInputs(*v, s, before, &after, &discovered);
       adj[n] = in;
@@ -1356,8 +1374,8 @@ struct Explorer {
       const Stmt& s = v->stmts[si];
       vector<string> in = adj.count(s.id) ? adj[s.id] : EffectiveInputs(*v, s, before, &after, &discovered);
       for (auto& x : in) {
-        auto p = v->producer.find(x);
-        if (p == v->producer.end()) continue;
+        auto p = known_producer.find(x);
+        if (p == known_producer.end()) continue;
         int t = p->second;
         if (colour[t] == 1) {
           cyclic = true;
@@ -1372,8 +1390,8 @@ struct Explorer {
       return false;
     };
     for (auto& n : closure) {
-      auto p = v->producer.find(n);
-      if (p == v->producer.end() || colour[p->second]) continue;
+      auto p = known_producer.find(n);
+      if (p == known_producer.end() || colour[p->second]) continue;
       vector<int> stack;
       if (dfs(p->second, stack)) break;
     }
@@ -1389,6 +1407,23 @@ struct Explorer {
     }
     size_t at = r.out.find("dependency cycle: ");
     bool reported = at != string::npos;
+    // dyndep information that only became available during this invocation: when was it loaded?
+    int dyndep_load_event = -1;   // index of the Finish event of the (last) dyndep-file producer on the cycle
+    if (cyclic)
+      for (int si : cyc_stmts) {
+        const Stmt& s = v->stmts[si];
+        if (s.dyndep.empty()) continue;
+        // (a dyndep file that exists but whose producer re-runs is loaded when that producer finishes)
+        for (size_t e = 0; e < r.events.size(); ++e)
+          if (r.events[e].kind == Event::kFinish && r.cmds[r.events[e].cmd].spec.id() == s.dyndep)
+            dyndep_load_event = max(dyndep_load_event, (int)e);
+      }
+    auto started_before_dyndep_load = [&](const string& id) {
+      if (dyndep_load_event < 0) return false;
+      for (int e = 0; e < dyndep_load_event; ++e)
+        if (r.events[e].kind == Event::kStart && r.cmds[r.events[e].cmd].spec.id() == id) return true;
+      return false;
+    };
     if (cyclic && !reported) {
       Violation x; x.prop = "C17"; x.clause = "cycle-not-diagnosed";
       string ids;
@@ -1410,6 +1445,15 @@ struct Explorer {
         for (auto& c : r.cmds) if (c.spec.id() == s.id) dirty_own = true;
       }
       x.facts.set("discovering_statement_dirty_for_its_own_reason", dirty_own);
+      bool early = false;
+      for (int si : cyc_stmts) {
+        const Stmt& cs = v->stmts[si];
+        if (cs.phony) continue;
+        if (started_before_dyndep_load(cs.id)) early = true;
+        if (dyndep_load_event >= 0 && !Started(r, cs.id)) early = true;   // was up to date: not in the plan
+      }
+      x.facts.set("dyndep_file_produced_in_this_build", dyndep_load_event >= 0);
+      x.facts.set("a_cycle_statement_was_finished_or_up_to_date_when_the_dyndep_file_was_loaded", early);
       out->push_back(x);
       return;
     }
@@ -1426,6 +1470,10 @@ struct Explorer {
     string path = r.out.substr(at + 18, nl == string::npos ? string::npos : nl - at - 18);
     size_t sfx = path.find(" [-w phonycycle=err]");
     if (sfx != string::npos) path.resize(sfx);
+    // "ninja: build stopped: dependency cycle: a -> b -> a." (mid-build) ends with a full stop
+    size_t ls = r.out.rfind('\n', at);
+    if (r.out.compare(ls == string::npos ? 0 : ls + 1, 21, "ninja: build stopped:") == 0 && !path.empty() && path.back() == '.')
+      path.pop_back();
     vector<string> hops;
     size_t i = 0;
     while (i <= path.size()) {
@@ -1449,6 +1497,8 @@ struct Explorer {
     for (auto& c : r.cmds) {
       auto p = v->producer.find(c.spec.id());
       if (p != v->producer.end() && cyc_stmts.count(p->second)) {
+        // started before the cycle-closing dyndep information existed: ninja could not know
+        if (started_before_dyndep_load(c.spec.id())) continue;
         Violation x; x.prop = "C17"; x.clause = "command-on-cycle-ran";
         x.detail = "'" + c.spec.id() + "' lies on the dependency cycle but its command was started";
         x.facts.set("stmt", c.spec.id());
